@@ -1,4 +1,4 @@
-import DFV.Lemmas.C12Comp
+import DFV.Lemmas.C12Ctor
 /-!
 # C12 — quarter-turn rotations move values, vectors, validity and geometry together
 
@@ -624,5 +624,176 @@ example : (match rotate90F exF "x" "y" (-3) (some [1, 2, 3]) false with
     | .error _ => ([], [])) = ([4, 6, 1], [1, 2, 3]) := by
   decide +kernel
 
+
+/-! ## round 3: four turns of a field, exactness of the component rotation, axis-name lookup,
+non-injective mappings -/
+
+/-- **Field: four successive quarter turns about the same point are the identity** — stated as ONE
+theorem (round 2 had it only up to `rotate_mod4` + `field_compose` + `field_turn_zero`).  For a field
+satisfying `FInv` (shape invariant, `SubInv` and `BcWf` of its mesh — periodic `bc` included) and the
+value invariant: once the first turn is accepted (any form), the three following ones are accepted
+too (each in any form — no constructor call is assumed to succeed), and the fourth result has the
+mesh, component labels, mapping and unit of the original, arrays of the same shapes, and at EVERY
+cell the validity and the value of the original (vector values included). -/
+theorem field_four_turns (f : Fld) (hf : FInv f) (hv : FldVInv f) (a1 a2 : String) (R : List Rat) (b1 b2 b3 b4 : Bool)
+    (x1 g1 : Fld) (h1 : rotate90F f a1 a2 1 (some R) b1 = .ok (x1, g1)) :
+    ∃ g2 g3 g4, rotate90F g1 a1 a2 1 (some R) b2 = .ok (if b2 then g2 else g1, g2) ∧
+      rotate90F g2 a1 a2 1 (some R) b3 = .ok (if b3 then g3 else g2, g3) ∧
+      rotate90F g3 a1 a2 1 (some R) b4 = .ok (if b4 then g4 else g3, g4) ∧
+      g4.mesh = f.mesh ∧ g4.nvdim = f.nvdim ∧ g4.vdims = f.vdims ∧ g4.vmap = f.vmap ∧ g4.unit = f.unit ∧
+      g4.valid.shape = f.valid.shape ∧ g4.data.shape = f.data.shape ∧
+      ∀ j, inRange f.mesh.n j = true → g4.valid.get j = f.valid.get j ∧ g4.data.get j = f.data.get j :=
+  rotate90F_four f hf hv a1 a2 R b1 b2 b3 b4 x1 g1 h1
+
+/-- **Field: `k` then `−k` is the identity, whole statement** (mesh with periodic `bc`, labels, and every
+validity and value entry) under `FInv` and the value invariant — `field_inverse` + `field_inverse_values`
+in one, for every integer `k` and any forms. -/
+theorem field_inverse_complete (f : Fld) (hf : FInv f) (hv : FldVInv f) (a1 a2 : String) (k : Int) (R : List Rat)
+    (b b' : Bool) (x1 g1 x2 g2 : Fld)
+    (h1 : rotate90F f a1 a2 k (some R) b = .ok (x1, g1)) (h2 : rotate90F g1 a1 a2 (-k) (some R) b' = .ok (x2, g2)) :
+    g2.mesh = f.mesh ∧ g2.nvdim = f.nvdim ∧ g2.vdims = f.vdims ∧ g2.vmap = f.vmap ∧ g2.unit = f.unit ∧
+    g2.valid.shape = f.valid.shape ∧ g2.data.shape = f.data.shape ∧
+    ∀ j, inRange f.mesh.n j = true → g2.valid.get j = f.valid.get j ∧ g2.data.get j = f.data.get j := by
+  obtain ⟨_, _, _, _, r5, r6, r7, r8, _⟩ := rotate90F_inverse f hf.1 hf.2.1 a1 a2 k R b b' x1 g1 x2 g2 h1 h2
+  obtain ⟨s1, s2, s3⟩ := rotate90F_inverse_vals f hf.1 hv hf.2.1 a1 a2 k R b b' x1 g1 x2 g2 h1 h2
+  exact ⟨rotate90F_inverse_mesh f hf a1 a2 k R b b' x1 g1 x2 g2 h1 h2, r5, r6, r7, r8, s1, s2, s3⟩
+
+/-- **Every component of a turned value is a component of the source value or its negative** — the
+matrix entries are exactly 0, 1, −1 for every integer `k` (model and, since repo fix 1656fb93, code:
+no `np.cos(k·π/2)` with its 6e-17), so no arithmetic beyond a sign change happens to the numbers. -/
+theorem rotVec_components_signed (v : List Rat) (c1 c2 : Nat) (k : Int) (c : Nat) (hc : c < v.length) :
+    (rotVec v c1 c2 k).getD c 0 = v.getD c 0 ∨
+    (rotVec v c1 c2 k).getD c 0 = v.getD c1 0 ∨ (rotVec v c1 c2 k).getD c 0 = - v.getD c1 0 ∨
+    (rotVec v c1 c2 k).getD c 0 = v.getD c2 0 ∨ (rotVec v c1 c2 k).getD c 0 = - v.getD c2 0 :=
+  rotVec_entry v c1 c2 k c hc
+
+/-- **Closure for every storage kind.**  Let `P` be any set of numbers closed under negation (the
+integers of an integer dtype, the numbers representable in float32 / float64, …).  If every
+component of every cell value of `f` is in `P`, so is every component of every cell value of the
+turned field — every integer `k`, scalar and vector fields, any mapping (non-injective included),
+either form.  The model was always exact; since fix 1656fb93 the code is too, so integer storage is
+compared EXACTLY by the correspondence check (dtype kept). -/
+theorem field_rotation_closed (P : Rat → Prop) (hneg : ∀ x, P x → P (-x)) (f : Fld) (hf : FldInv f) (hv : FldVInv f)
+    (hP : ∀ j, inRange f.mesh.n j = true → ∀ c, c < f.nvdim → P ((f.data.get j).getD c 0))
+    (a1 a2 : String) (k : Int) (ref : Option (List Rat)) (b : Bool) (x g : Fld)
+    (h : rotate90F f a1 a2 k ref b = .ok (x, g)) :
+    ∀ j, inRange g.mesh.n j = true → ∀ c, c < g.nvdim → P ((g.data.get j).getD c 0) :=
+  rotate90F_closed P hneg f hf hv hP a1 a2 k ref b x g h
+
+/-- … in particular **integer-valued fields stay integer-valued** under every quarter turn. -/
+theorem field_rotation_keeps_integers (f : Fld) (hf : FldInv f) (hv : FldVInv f)
+    (hP : ∀ j, inRange f.mesh.n j = true → ∀ c, c < f.nvdim → ∃ z : Int, (f.data.get j).getD c 0 = (z : Rat))
+    (a1 a2 : String) (k : Int) (ref : Option (List Rat)) (b : Bool) (x g : Fld)
+    (h : rotate90F f a1 a2 k ref b = .ok (x, g)) :
+    ∀ j, inRange g.mesh.n j = true → ∀ c, c < g.nvdim → ∃ z : Int, (g.data.get j).getD c 0 = (z : Rat) :=
+  rotate90F_closed (fun q => ∃ z : Int, q = (z : Rat)) (fun q ⟨z, hz⟩ => ⟨-z, by rw [hz]; push_cast; rfl⟩)
+    f hf hv hP a1 a2 k ref b x g h
+
+/-- **The axis-name lookup is exact, case-sensitive membership**: `_dim2index` finds a string iff it
+IS one of the dimension names (string equality — `"X"` is not `"x"`). -/
+theorem axis_lookup_exact (r : Region) (d : String) :
+    ((∃ i, r.dim2index d = .ok i) ↔ d ∈ r.dims) ∧ ((∃ e, r.dim2index d = .error e) ↔ d ∉ r.dims) :=
+  ⟨dim2index_ok_iff r d, dim2index_err_iff r d⟩
+
+/-- **A quarter turn is refused iff the two names are equal, a name is not EXACTLY one of the
+dimension names, or the reference point has the wrong length** — as an iff, at region, mesh and
+field level (there additionally: a vector field whose mapping misses one of the axes), in either
+form `b`; the model's step then returns an error carrying no state (nothing changed). -/
+theorem rotate_refused_iff (r : Region) (hr : r.Inv) (m : Mesh) (hm : m.Inv) (hs : SubInv m) (hbc : BcWf m)
+    (f : Fld) (hf : FInv f) (a1 a2 : String) (k : Int) (ref : Option (List Rat)) (b : Bool) :
+    ((∃ e, rotate90R r a1 a2 k ref b = .error e) ↔
+      a1 = a2 ∨ (ref.getD r.center).length ≠ r.ndim ∨ a1 ∉ r.dims ∨ a2 ∉ r.dims) ∧
+    ((∃ e, stepM m (.rotate90 a1 a2 k ref b) = .error e) ↔
+      a1 = a2 ∨ (ref.getD m.region.center).length ≠ m.region.ndim ∨ a1 ∉ m.region.dims ∨ a2 ∉ m.region.dims) ∧
+    ((∃ e, rotate90F f a1 a2 k ref b = .error e) ↔
+      (a1 = a2 ∨ (ref.getD f.mesh.region.center).length ≠ f.mesh.region.ndim ∨
+        a1 ∉ f.mesh.region.dims ∨ a2 ∉ f.mesh.region.dims) ∨
+      (f.nvdim > 1 ∧ ((f.rDim a1).bind f.vdimIndex = none ∨ (f.rDim a2).bind f.vdimIndex = none))) := by
+  refine ⟨?_, ?_, ?_⟩
+  · rw [← malformed_rot_iff r a1 a2 k ref b]
+    exact stepR_error_iff r hr (.rotate90 a1 a2 k ref b)
+  · rw [← malformed_rot_iff m.region a1 a2 k ref b]
+    exact stepM_error_iff m hm hs hbc (.rotate90 a1 a2 k ref b)
+  · rw [← malformed_rot_iff f.mesh.region a1 a2 k ref b]
+    exact stepF_error_iff f hf (.rotate90 a1 a2 k ref b)
+
+/-- **A name in the wrong case is not an axis name**: a string that is not literally among the
+dimension names — e.g. `"X"` on a region with dims `x, y, z` — is refused as first or second axis
+at every level and in both forms, whatever else holds (no hypothesis on the objects). -/
+theorem wrong_case_refused (r : Region) (m : Mesh) (f : Fld) (a1 a2 : String) (k : Int) (ref : Option (List Rat)) (b : Bool) :
+    ((a1 ∉ r.dims ∨ a2 ∉ r.dims) → ∃ e, rotate90R r a1 a2 k ref b = .error e) ∧
+    ((a1 ∉ m.region.dims ∨ a2 ∉ m.region.dims) → ∃ e, stepM m (.rotate90 a1 a2 k ref b) = .error e) ∧
+    ((a1 ∉ f.mesh.region.dims ∨ a2 ∉ f.mesh.region.dims) → ∃ e, rotate90F f a1 a2 k ref b = .error e) := by
+  refine ⟨fun h => ?_, fun h => ?_, fun h => ?_⟩
+  · exact stepR_malformed r (.rotate90 a1 a2 k ref b) ((malformed_rot_iff r a1 a2 k ref b).mpr (Or.inr (Or.inr h)))
+  · exact stepM_malformed m (.rotate90 a1 a2 k ref b) ((malformed_rot_iff m.region a1 a2 k ref b).mpr (Or.inr (Or.inr h)))
+  · exact stepF_malformed f (.rotate90 a1 a2 k ref b)
+      (Or.inl ((malformed_rot_iff f.mesh.region a1 a2 k ref b).mpr (Or.inr (Or.inr h))))
+
+/-- **Non-injective mappings: the LAST label mapped onto an axis is the one that is turned.**  If the
+reversed mapping gives label `l` for axis `a` (`_r_dim_mapping[a]`, a dict comprehension over
+`vdim_mapping.items()`: later keys overwrite earlier ones), the mapping splits as
+`pre ++ (l, a) :: post` with no entry of `post` mapped onto `a`; and an axis has no label iff no
+entry is mapped onto it.  With the value invariant the two labels of two different axes are still
+different components (`mapped_components_distinct` does not need injectivity), so `field_inverse_values`,
+`field_compose_values` and `field_four_turns` hold for non-injective mappings as well: the labels that
+share an axis with a later one are simply carried along unchanged (`rotVec_other`). -/
+theorem turned_label_is_last (f : Fld) (a : String) :
+    (∀ l, f.rDim a = some l → ∃ pre post, f.vmap = pre ++ (l, a) :: post ∧ ∀ q ∈ post, q.2 ≠ a) ∧
+    (f.rDim a = none ↔ ∀ q ∈ f.vmap, q.2 ≠ a) :=
+  ⟨fun l h => rDim_last f a l h, rDim_none_iff f a⟩
+
+/-- non-vacuity of the round-3 theorems: `exF` meets `FInv` and the value invariant, its values are
+integers; the mapping `[("x","x"), ("y","y"), ("z","x")]` is non-injective: axis `x` gets the LAST label `z`;
+`"X"` is not a dimension name of `exP` -/
+example : FInv exF ∧ FldVInv exF := ⟨⟨exF_inv, exP_subInv, bcWf_of_plain _ (Or.inl rfl)⟩, ⟨fun _ _ => rfl, fun vs h => by cases h; rfl, by decide⟩⟩
+example : ({ exF with vmap := [("x", "x"), ("y", "y"), ("z", "x")] } : Fld).rDim "x" = some "z" := by decide
+example : "X" ∉ exP.region.dims := by decide
+example : (match rotate90F exF "X" "y" 1 none false with | .ok _ => true | .error _ => false) = false := by decide +kernel
+
+/-! ## round 3: the constructor establishes the invariants -/
+
+/-- **`Field.__init__` establishes the shape and the value invariant** (was an observed fact): whatever
+`mkFld?` — the constructor for an array value: array check of `update_field_values`, `valid` setter,
+`vdims` setter, `vdim_mapping` setter, in the code's order — returns on a mesh satisfying the mesh
+invariant satisfies `FldInv` (arrays of shape `n`) and `FldVInv` (every cell value has `nvdim`
+components, `nvdim` labels when there are labels, mapping keys pairwise different), with mesh, arrays,
+`nvdim` and unit as given.  Hypotheses on constructor INPUTS only (none on the mapping: keys that are
+not a rearrangement of the labels are refused, which makes them pairwise different). -/
+theorem constructor_establishes_invariants (mesh : Mesh) (hm : mesh.Inv) (nvdim : Nat) (value : NDA (List Rat))
+    (valid : NDA Bool) (vdims : Option (List String)) (vmap : Option (List (String × Option String)))
+    (unit : Option String) (f : Fld) (h : mkFld? mesh nvdim value valid vdims vmap unit = .ok f) :
+    FldInv f ∧ FldVInv f ∧ f.mesh = mesh ∧ f.nvdim = nvdim ∧ f.data = value ∧ f.valid = valid ∧ f.unit = unit ∧ 1 ≤ nvdim :=
+  mkFld?_inv mesh hm nvdim value valid vdims vmap unit f h
+
+/-- **`k` then `−k`, and `k` then `l` vs `k + l`, on every constructed field** — `field_inverse_values` and
+`field_compose_values` with hypotheses on the constructor inputs only: a mesh satisfying the mesh
+invariant and `SubInv`, ANY value / validity arrays, labels and mapping (injective or not, partial or
+not) the constructor accepts. -/
+theorem constructed_field_turns (mesh : Mesh) (hm : mesh.Inv) (hs : SubInv mesh) (nvdim : Nat) (value : NDA (List Rat))
+    (valid : NDA Bool) (vdims : Option (List String)) (vmap : Option (List (String × Option String)))
+    (unit : Option String) (f : Fld) (h : mkFld? mesh nvdim value valid vdims vmap unit = .ok f)
+    (a1 a2 : String) (k l : Int) (R : List Rat) (b b' b'' : Bool) (x1 g1 : Fld)
+    (h1 : rotate90F f a1 a2 k (some R) b = .ok (x1, g1)) :
+    (∀ x2 g2, rotate90F g1 a1 a2 (-k) (some R) b' = .ok (x2, g2) →
+      ∀ j, inRange mesh.n j = true → g2.valid.get j = valid.get j ∧ g2.data.get j = value.get j) ∧
+    (∀ x2 g2 x12 g12, rotate90F g1 a1 a2 l (some R) b' = .ok (x2, g2) → rotate90F f a1 a2 (k + l) (some R) b'' = .ok (x12, g12) →
+      g2.data.shape = g12.data.shape ∧ ∀ j, inRange g12.data.shape j = true → g2.data.get j = g12.data.get j) := by
+  obtain ⟨hf, hv, e1, _, e3, e4, _⟩ := mkFld?_inv mesh hm nvdim value valid vdims vmap unit f h
+  constructor
+  · intro x2 g2 h2 j hj
+    have := (rotate90F_inverse_vals f hf hv (e1 ▸ hs) a1 a2 k R b b' x1 g1 x2 g2 h1 h2).2.2 j (e1 ▸ hj)
+    rw [e3, e4] at this; exact this
+  · intro x2 g2 x12 g12 h2 h12
+    exact rotate90F_compose_vals f hf hv a1 a2 k l (some R) (some R) (some R) b b' b'' x1 g1 x2 g2 x12 g12 h1 h2 h12
+
+/-- non-vacuity: the constructor accepts a 3-component field on `exP` with a NON-INJECTIVE mapping given as
+a dict with a `None` value; it refuses keys that are not the labels -/
+example : (match mkFld? exP 3 (NDA.const [4, 6, 1] [1, 2, 3]) (NDA.const [4, 6, 1] true) (some ["a", "b", "c"])
+    (some [("b", some "x"), ("a", none), ("c", some "x")]) none with
+    | .ok f => (f.vmap, f.rDim "x") | .error _ => ([], none)) = ([("b", "x"), ("c", "x")], some "c") := by decide +kernel
+example : (match mkFld? exP 3 (NDA.const [4, 6, 1] [1, 2, 3]) (NDA.const [4, 6, 1] true) (some ["a", "b", "c"])
+    (some [("b", some "x"), ("q", none), ("c", some "x")]) none with
+    | .ok _ => true | .error _ => false) = false := by decide +kernel
 
 end DFV.C12
